@@ -240,7 +240,7 @@ pub fn trace(args: &[String]) -> i32 {
 /// Push half of C16: a program run is a function of program, input values and limits - not of
 /// the order in which inputs were declared nor of the hash map instance holding them.
 pub fn push_trace(args: &[String]) -> i32 {
-    use crate::proj::{build_state_ordered, build_state_ordered_decoy, stacks_to_json};
+    use crate::proj::{build_state_ordered_decoy, stacks_to_json};
     use push::push_vm::State;
     use push::error::into_state::IntoState;
     let seed = arg_u64(args, "--seed", 0);
@@ -252,21 +252,19 @@ pub fn push_trace(args: &[String]) -> i32 {
         let mut rng = run_rng(seed, 0xC16B, run);
         let (sv, max, inputs, limit) = crate::vm::random_config(&mut rng, &pool);
         out.line(&json!({"ev": "reset", "run": run, "op": "push"}));
-        // the state built with the inputs declared in the first order: every other way of declaring
-        // the SAME bindings (another order, a name bound to something else first) builds an EQUAL state
-        let reference = build_state_ordered(&sv, &max, &inputs, limit, 0).ok();
+        // every way of declaring the SAME bindings (another order, a name bound to something else
+        // first) evaluates alike. (Whether two such states also compare `==` BEFORE evaluation is not
+        // demanded: the property speaks about evaluation.)
         for rotation in 0..6 {
             let val = guarded(|| {
                 let st = build_state_ordered_decoy(&sv, &max, &inputs, limit, rotation, rotation % 2 == 1).expect("state");
-                let same_state = reference.as_ref().is_some_and(|r| *r == st);
-                let mut o = match st.run_to_completion() {
+                let o = match st.run_to_completion() {
                     Ok(mut s) => json!({"status": "ok", "stacks": format!("{:?}", (s.stdout_string().ok(), stacks_to_json(&s).map(|v| v.to_string())))}),
                     Err(fe) => {
                         let mut s = fe.into_state();
                         json!({"status": "fatal", "stacks": format!("{:?}", (s.stdout_string().ok(), stacks_to_json(&s).map(|v| v.to_string())))})
                     }
                 };
-                o["built_state_equals_the_first"] = json!(same_state);
                 o
             })
             .unwrap_or_else(|m| json!({"status": "panic", "stacks": m}));
